@@ -336,6 +336,8 @@ pub enum Edit {
     SetLen(u8, u32),
     Merge(u8),
     Split(u8),
+    /// insert a FABRICATED record (no key needed): length 0, given flag, all-zero tag, counter = position
+    InsEmptyRec(u8, u8),
 }
 
 struct Layout {
@@ -466,6 +468,12 @@ pub fn apply(c: &Corpus, x: &[u8], e: &Edit) -> Option<Vec<u8>> {
                     let mut out = x.to_vec();
                     out[s + 12..s + 16].copy_from_slice(&v.to_be_bytes());
                     return if out == x { None } else { Some(out) };
+                }
+                Edit::InsEmptyRec(at, flag) => {
+                    if (*at as usize) > n {
+                        return None;
+                    }
+                    recs.insert(*at as usize, Record { counter_field: *at as u64, flag_field: *flag as u32, len_field: 0, body: vec![], tag: [0u8; 16] });
                 }
                 Edit::Merge(i) => {
                     // two bodies under one length: header of i, body_i || body_{i+1}, tag of i+1
@@ -628,6 +636,10 @@ pub fn alphabet(c: &Corpus, x: &[u8], which: Alphabet, out: &mut Vec<(Edit, bool
             }
             out.push((Edit::Merge(i8), false));
             out.push((Edit::Split(i8), false));
+        }
+        for at in 0..=n {
+            out.push((Edit::InsEmptyRec(at as u8, 0), false));
+            out.push((Edit::InsEmptyRec(at as u8, 1), false));
         }
         for (fi, f) in c.files.iter().enumerate() {
             for ri in 0..f.records.len() {
